@@ -7,10 +7,10 @@ CONSTANTS
  Safe = FALSE
  KeepN = 2
  MaxEp = 8
- MaxSid = 4
+ MaxSid = 5
  WithReader = FALSE
  WithCopy = FALSE
- WithMerger = FALSE
+ WithMerger = TRUE
  WithPurge = TRUE
  WithMemMerge = FALSE
  MaxMergeInputs = 2
